@@ -13,7 +13,7 @@ import random
 from fractions import Fraction
 
 from . import gen, sim, tlc
-from .common import MachineryFailure, Result, bind_repo, rat, seed
+from .common import Guard, MachineryFailure, Result, bind_repo, rat, seed
 
 
 def project(stage, model, ctx):
@@ -152,9 +152,11 @@ def replay_drilling(res: Result, vectors: list):
     bad = 0
     for v in vectors:
         f = lambda s_: float(Fraction(s_))  # noqa: E731
-        got = calculate_total_drilling_lengths_m(getattr(Configuration, v['cfg']), v['nsec'], f(v['len']), f(v['din']), f(v['dout']),
-                                                 v['nprod'], v['ninj'])
-        ok = Fraction(got[0]) == Fraction(v['tot']) and Fraction(got[1]) == Fraction(v['vert']) and Fraction(got[2]) == Fraction(v['lat'])
+        got, ok = None, False
+        with Guard():
+            got = calculate_total_drilling_lengths_m(getattr(Configuration, v['cfg']), v['nsec'], f(v['len']), f(v['din']), f(v['dout']),
+                                                     v['nprod'], v['ninj'])
+            ok = Fraction(got[0]) == Fraction(v['tot']) and Fraction(got[1]) == Fraction(v['vert']) and Fraction(got[2]) == Fraction(v['lat'])
         res.count('m2_drilling_vectors')
         if not ok:
             bad += 1
